@@ -218,6 +218,7 @@ struct Extractor {
         std::string S;
         llvm::raw_string_ostream OS(S);
         if (A.getKind() == TemplateArgument::Type) OS << ty(A.getAsType());
+        else if (A.getKind() == TemplateArgument::Integral) OS << A.getAsIntegral().getExtValue();
         else A.print(PP, OS, true);
         Args.push_back(OS.str());
       }
@@ -553,6 +554,7 @@ struct Extractor {
         std::string S;
         llvm::raw_string_ostream OS(S);
         if (A.getKind() == TemplateArgument::Type) OS << ty(A.getAsType());
+        else if (A.getKind() == TemplateArgument::Integral) OS << A.getAsIntegral().getExtValue();
         else A.print(PP, OS, true);
         Args.push_back(OS.str());
       }
